@@ -906,7 +906,7 @@ def run_adjoint_case(ctx, B, desc, oracle_only=False):
     if oracle_only:
         return
     # ---- correspondence
-    mimpl = 'np' if A.impl == 'numpy' else 'fftw'
+    mimpl = 'np' if getattr(A, 'impl', 'numpy') == 'numpy' else 'fftw'
     line = 'dftadj num={} impl={} inv={} plus={} hc={} real={} exp2=1 rshape={} axes={} x={}'.format(
         'x' if exact else 'f', mimpl, int(inv), int(sign == '+'), int(hc), int(realdom), nl(shape), nl(axes),
         cl(v))
